@@ -81,11 +81,11 @@ reg("str_dispatch_3byte", "lib", ["C14"], cap=1800, tier=T, stubbing=True, bound
 _enc_fn = {"ascii": ["encodation::ascii::encode"], "c40": ["encodation::c40::encode", "c40::encode_generic", "c40::handle_end", "c40::write_three_values"],
            "text": ["encodation::text::encode", "c40::encode_generic", "c40::handle_end"], "x12": ["encodation::x12::encode"],
            "edifact": ["encodation::edifact::encode", "edifact::handle_end", "edifact::write4"], "b256": ["encodation::base256::encode", "base256::write_length"]}
-for n, tier, cap in (("ascii_2", Q, 600), ("ascii_3", Q, 900), ("c40_1", Q, 900), ("c40_2", T, 2400), ("c40_3", T, 3600),
+for n, tier, cap in (("ascii_2", Q, 600), ("ascii_3", Q, 900), ("c40_1", Q, 900), ("c40_2", Q, 2400), ("c40_3", T, 3600),
                      ("text_2", T, 2400), ("text_3", T, 3600), ("x12_3", Q, 900), ("x12_5", Q, 1200),
                      ("edifact_2", Q, 900), ("edifact_4", Q, 1200), ("edifact_5", T, 1800), ("b256_2", Q, 900), ("b256_3", Q, 1200)):
     m, l = n.split("_")
-    reg("conf_" + n, "enc", ["C02", "C11", "C01"], tier=tier, cap=cap, mem_gb=16 if tier == T else 8,
+    reg("conf_" + n, "enc", ["C02", "C11", "C01"], tier=tier, cap=cap, mem_gb=16 if (tier == T or n == "c40_2") else 8,
         qprops=["C02", "C11", "C01"] if n in ("ascii_2", "x12_3", "edifact_2", "b256_2", "c40_1") else ["C02", "C11"] if n in ("edifact_4", "b256_3") else ["C02"],
         role="attempt" if n in ("c40_3", "text_3") else "lemma",
         bounds="real %s encoder over the array-backed context HEnc: %s arbitrary characters (%s), 1..=8 codewords already present, symbol list = any 1..3 ascending capacities from the real catalogue (<= 43), planned switch to ASCII at any character or none; stream finished as the dispatch loop does (rest in ASCII, UNLATCH, PAD, 253-state pads) and decoded by the independent ISO/IEC 16022 decoder: output == input, no assertion/overflow/index failure" % (m, l, "EDIFACT-encodable" if m == "edifact" else "X12-native in the full triples" if m == "x12" else "all 256 values"),
@@ -211,7 +211,7 @@ for n in ("sq10", "sq12", "sq14", "sq16", "sq18", "sq20", "sq22", "sq24", "sq26"
     reg("pl_idx_" + n, "place", ["C07", "C01"], tier=Q if n in _q_shapes else T, cap=1800 if n in _q_shapes else 3600, mem_gb=8 if n in _q_shapes else 16,
         qprops=["C07", "C01"] if n in ("sq10", "r8x18") else ["C07"],
         bounds="closed term, shape %s: the complete traversal vs Annex F (+ DMRE row wrap): every (codeword, bit) on the standard's module, bijection, untouched = fixed corner pattern" % n, encodes=PL)
-reg("pl_cell_any", "place", ["C07"], cap=2400, tier=T, bounds="symbolic even mapping matrix 6..=132 x 6..=132, symbolic (i, j) inside it: utah / corner1-4 / idx vs the standard's module()", encodes=PL[1:])
+reg("pl_cell_any", "place", ["C07"], cap=2400, bounds="symbolic even mapping matrix 6..=132 x 6..=132, symbolic (i, j) inside it: utah / corner1-4 / idx vs the standard's module()", encodes=PL[1:])
 for n, tier in (("sq10", T), ("sq12", T), ("r8x18", T)):
     reg("pl_rw_" + n, "place", ["C07", "C01"], cap=3600, mem_gb=24, tier=tier, role="attempt", bounds="%s: all codewords of the symbol symbolic: module == bit of the codeword at the standard's position; codewords() inverts" % n,
         encodes=["placement::MatrixMap::new_with_codewords", "copy_from_codewords", "traverse_mut", "bits_mut", "write_padding", "codewords", "traverse"] + PL)
@@ -223,8 +223,11 @@ TFB = ["placement::MatrixMap::try_from_bits", "placement::MatrixMap::bitmap"]
 for n in ("sq10", "sq12", "r8x18", "r8x32"):
     reg("fd_strict_" + n, "place", ["C08", "C05"], cap=3600, mem_gb=24, tier=T, role="attempt", stubbing=True, unwindset=[("btree", 4)],
         bounds="%s: every pixel symbolic; accepted => re-rendering reproduces it; SymbolList::all / block_setup / has_padding_modules stubbed to this one size" % n, encodes=TFB)
+for n in ("r8x32", "sq12", "sq32"):
+    reg("fd_flip_" + n, "place", ["C08", "C05"], cap=2400, mem_gb=16, tier=Q if n == "r8x32" else T, role="lemma" if n == "r8x32" else "attempt", stubbing=True, unwindset=[("btree", 4)],
+        bounds="%s: the rendering of the empty symbol with ONE module flipped at a symbolic position (every single-module deviation): data module -> accepted with that entry changed; finder / clock / alignment / fixed-corner module -> rejected; size lookup stubbed to this size" % n, encodes=TFB)
 for n in ("r8x32", "sq12"):
-    reg("fd_parse_" + n, "place", ["C08", "C01"], cap=3600, mem_gb=24, tier=T, role="attempt", stubbing=True, unwindset=[("btree", 4)],
+    reg("fd_parse_" + n, "place", ["C08", "C01"], cap=3600, mem_gb=16, tier=Q if n == "r8x32" else T, role="lemma" if n == "r8x32" else "attempt", stubbing=True, unwindset=[("btree", 4)], qprops=["C08"],
         bounds="%s: every mapping-matrix entry symbolic: try_from_bits(bitmap(m)) == (m, size); same stubs" % n, encodes=TFB)
 reg("fd_ragged_r8x18", "place", ["C08", "C05"], cap=600, stubbing=True, unwindset=[("btree", 4)],
     bounds="8x18 symbol + 1 / + 17 stray pixels -> DataSize, width 0 -> ZeroWidth; pixel values symbolic", encodes=TFB[:1])
